@@ -92,6 +92,32 @@ Theorem C01_receive_fragments : forall cfg history a b v1 ra r,
   (ra = [] -> r = RX_INCOMPLETE -> rc_valid (rv_chunk v1) = false -> receive cfg v (a ++ b) = receive cfg v1 b).
 Proof. exact receive_app_reachable. Qed.
 
+(* the read loop of http_server::receive_handler: when a read ends in the middle of a message (its last receive()
+   ran out of data), the loop over a ++ b delivers exactly what the loop over a followed by the loop over b
+   delivers, in the same order, and ends in the same state - in every state a connection can reach, for all
+   sufficiently large fuel (fuel is an artefact of the model; more fuel never changes a completed run) *)
+Theorem C01_cut_mid_message : forall cfg history a b v1 e1 c1 v2 e2 c2,
+  let v := fst (fst (fst (feed cfg (rv_init cfg) history))) in
+  read_loop cfg v a = (v1, e1, c1, false) -> ends_incomplete c1 -> no_reject c1 -> rc_valid (rv_chunk v1) = false ->
+  read_loop cfg v1 b = (v2, e2, c2, false) ->
+  exists N c, forall k, rx_loop (N + k) cfg v (a ++ b) = (v2, e1 ++ e2, c, false).
+Proof.
+  intros cfg history a b v1 e1 c1 v2 e2 c2 v Ha He Hn Hv Hb.
+  destruct (rx_loop_cut_mid_message cfg _ v a b v1 e1 c1 _ v2 e2 c2 (feed_ok cfg history _ (rv_ok_init cfg)) Ha He Hn Hv Hb) as [c Hc].
+  exists (loop_fuel a + loop_fuel b)%nat, c. intros k. exact (rx_loop_more_fuel cfg _ _ _ _ _ _ Hc k).
+Qed.
+
+(* non-vacuity: a request cut inside a folded header line; both runs deliver the same single request *)
+Example C01_example_cut_mid_message :
+  let cfg := mk_rcfg (mk_limits 8190 8 100 65534 1024 8 65534 65534 false) 1048576 1048576 true true in
+  let a := [71;69;84;32;47;32;72;84;84;80;47;49;46;49;13;10;72;111;115;116;58;32;104;13;10;88;58;32;97;13;10] in
+  let b := [32;98;13;10;13;10] in
+  let '(v1, e1, c1, o1) := read_loop cfg (rv_init cfg) a in
+  let '(v2, e2, c2, o2) := read_loop cfg v1 b in
+  let '(v3, e3, c3, o3) := read_loop cfg (rv_init cfg) (a ++ b) in
+  (o1, o2, o3) = (false, false, false) /\ e1 ++ e2 = e3 /\ v2 = v3 /\ length e3 = 1%nat /\ c1 = [(RX_INCOMPLETE, 31)].
+Proof. vm_compute. repeat split. Qed.
+
 (* the premises are met: the invariant holds initially *)
 Example C01_example_invariant : forall cfg, rv_ok (rv_init cfg).
 Proof. exact rv_ok_init. Qed.
@@ -99,6 +125,7 @@ Proof. exact rv_ok_init. Qed.
 Print Assumptions C01_request_line_fragments.
 Print Assumptions C01_field_line_fragments.
 Print Assumptions C01_chunk_line_fragments.
+Print Assumptions C01_cut_mid_message.
 Print Assumptions C01_header_block_fragments.
 Print Assumptions C01_request_head_fragments.
 Print Assumptions C01_chunk_fragments.
